@@ -8,7 +8,7 @@ from vlib import log
 # which conjunct classes of the trace specification speak for which property (used to describe a divergence)
 FOCUS = {
     "C01": dict(gens=[("file", 22), ("keys", 20)], quick=80, thorough=1500, what="export/tamper/import histories over two wallets"),
-    "C02": dict(gens=[("core", 16), ("keys", 16)], quick=75, thorough=1500, what="all wallet calls with restart projection after every step"),
+    "C02": dict(gens=[("core", 16), ("keys", 16)], quick=50, thorough=1500, what="all wallet calls with restart projection after every step"),
     "C03": dict(gens=[("core", 16), ("file", 20)], quick=80, thorough=1500, what="passphrase arguments of every class; secrets in memory while locked"),
     "C04": dict(gens=[("core", 14), ("file", 14), ("keys", 16)], quick=55, thorough=800, what="clear-text scan of store, exports and log after every step"),
     "C05": dict(gens=[("core", 16), ("keys", 22)], quick=90, thorough=1200, what="every issued key signs verifiably iff unlocked, also after export / delete / import"),
@@ -183,7 +183,7 @@ def run(prop, tier, seed):
     behs = behs[:((220 if prop == "C12" else 160) if tier == "quick" else 4000)]
     if prop == "C12":
         behs = vlib.dedup(expand_faults(behs, 500 if tier == "quick" else 5000))
-    # C02 is anchored in poc/wallet/wallet.go too: every third restart projection opens the copied store the way the node
+    # C02 is anchored in poc/wallet/wallet.go too: every fourth restart projection opens the copied store the way the node
     # does at start-up (wallet.NewPoCWallet on <MinerDir>/keystore)
     scen = mk_scen(behs, seed, api_every=API_EVERY.get(prop, 0), walletopen=(prop == "C02"))
     v.cov["scenarios_through_api_handlers"] = sum(1 for s in scen if s["opt"].get("api"))
